@@ -9,6 +9,69 @@ Import Order.Theory GRing.Theory Num.Theory.
 Local Open Scope ring_scope.
 
 (* ---------------------------------------------------------------------- *)
+(* A symmetric positive definite matrix has a positive determinant (induction on the
+   size through the Schur complement of the top-left entry).  Same statement and proof
+   as C15_Proofs.spd_det_gt0 (copied to keep this file independent of C15's model;
+   candidate for LinAlg.v). *)
+Section SpdDet.
+Variable F : realFieldType.
+
+Lemma spd_ulsub m n (Aul : 'M[F]_m) (Aur : 'M[F]_(m,n)) (Adl : 'M[F]_(n,m)) (Adr : 'M[F]_n) :
+  spd (block_mx Aul Aur Adl Adr) -> spd Aul.
+Proof.
+case=> sA pA; split.
+  by move: sA; rewrite /sym tr_block_mx => /eq_block_mx [].
+move=> x xn0.
+have -> : qf Aul x = qf (block_mx Aul Aur Adl Adr) (row_mx x 0).
+  by rewrite /qf mul_row_block !mul0mx !addr0 tr_row_mx trmx0 mul_row_col mulmx0 addr0.
+by apply: pA; rewrite row_mx_eq0 negb_and xn0.
+Qed.
+
+Lemma spd_mx11_gt0 (a : 'M[F]_1) : spd a -> 0 < \det a.
+Proof.
+case=> _ pa; rewrite det_mx11.
+have := pa 1%:M (oner_neq0 _).
+by rewrite /qf mul1mx trmx1 mulmx1.
+Qed.
+
+Lemma spd_det_step n : (forall B : 'M[F]_n, spd B -> 0 < \det B) ->
+  forall A : 'M[F]_(1 + n), spd A -> 0 < \det A.
+Proof.
+move=> IH A; rewrite -[A]submxK.
+set a := ulsubmx _; set b := ursubmx _; set c := dlsubmx _; set D := drsubmx _ => sA.
+have sa : spd a := spd_ulsub sA.
+have ua := spd_unit sa.
+have [symA posA] := sA.
+have [ta tc tb tD] : [/\ a^T = a, c^T = b, b^T = c & D^T = D].
+  by move: symA; rewrite /sym tr_block_mx => /eq_block_mx [].
+pose S := D - c *m invmx a *m b.
+have E : block_mx a b c D = block_mx 1%:M 0 (c *m invmx a) 1%:M *m block_mx a b 0 S.
+  rewrite mulmx_block !mul1mx !mul0mx ?mulmx0 !addr0 -[c *m invmx a *m a]mulmxA (mulVmx ua) mulmx1.
+  by rewrite /S addrC subrK.
+have sS : spd S.
+  split.
+    by rewrite /sym /S linearB /= !trmx_mul trmx_inv ta tb tc tD mulmxA.
+  move=> y yn0.
+  pose s : 'rV[F]_1 := - (y *m c *m invmx a).
+  have -> : qf S y = qf (block_mx a b c D) (row_mx s y).
+    rewrite /qf mul_row_block tr_row_mx mul_row_col.
+    have -> : s *m a + y *m c = 0.
+      by rewrite /s mulNmx -[_ *m invmx a *m a]mulmxA (mulVmx ua) mulmx1 addNr.
+    rewrite mul0mx add0r /S mulmxBr /s mulNmx !mulmxA addrC.
+    by [].
+  by apply: posA; rewrite row_mx_eq0 negb_and yn0 orbT.
+rewrite E det_mulmx det_lblock !det1 !mul1r det_ublock.
+by apply: mulr_gt0; [exact: spd_mx11_gt0 | exact: IH].
+Qed.
+
+Lemma spd_det_gt0 n (A : 'M[F]_n) : spd A -> 0 < \det A.
+Proof.
+elim: n A => [|n IH] A sA; first by rewrite det_mx00 ltr01.
+exact: (@spd_det_step n IH A sA).
+Qed.
+End SpdDet.
+
+(* ---------------------------------------------------------------------- *)
 (* A. The algebra of the serial form: X, Y the weighted, mean-shifted sigma
       points of state and measurement, R the (SPD) noise covariance.        *)
 Section Algebra.
@@ -38,6 +101,11 @@ have -> : Y^T *m invmx R *m Y = Y^T *m invmx R *m Y^T^T by rewrite trmxK.
 by apply: psd_congr; apply: spd_psd; apply: spd_inv.
 Qed.
 Lemma serial_Ci_unit : Ci \in unitmx. Proof. exact: spd_unit serial_Ci_spd. Qed.
+
+(* the arguments of the two logarithms are positive *)
+Lemma serial_detS_gt0 : 0 < \det S. Proof. exact: spd_det_gt0 serial_S_spd. Qed.
+Lemma serial_detC_gt0 : 0 < \det R * \det Ci.
+Proof. by apply: mulr_gt0; [exact: spd_det_gt0 spdR | exact: spd_det_gt0 serial_Ci_spd]. Qed.
 
 (* Y^T R^-1 S = Ci Y^T *)
 Lemma serial_swap : Y^T *m invmx R *m S = Ci *m Y^T.
@@ -383,10 +451,10 @@ Lemma mx_get_col0 r (v : 'cV[F]_r) (i : 'I_r) : mx_get v i 0 = v i 0.
 Proof. by rewrite (mx_get_nat v (ltn_ord i) (ltn0Sn 0)); congr (v _ _); apply: val_inj. Qed.
 
 (* ---- size check ---- *)
-Lemma sukf_size_mismatch n m s (w : utw O) (h : M O n 1 -> M O m 1) (y : M O m 1)
+Lemma sukf_size_mismatch n m s nl ml (w : utw O) (h : M O n 1 -> M O m 1) (y : M O m 1)
       (nz : noise O s m) (pred corr_prev : mixture O n) :
   Nat.modulo m s <> 0%N ->
-  sukf_correct w h y nz pred corr_prev = (pred, None).
+  sukf_correct nl ml w h y nz pred corr_prev = (pred, None).
 Proof.
 move=> ne; rewrite /sukf_correct.
 by case E: (Nat.eqb _ _) => //; move/Nat.eqb_eq: E.
@@ -505,8 +573,23 @@ Lemma row3_gram n (Z : 'M[F]_(n, 1)) (U V : 'M[F]_n) :
   row_mx Z (row_mx U V) *m (row_mx Z (row_mx U V))^T = Z *m Z^T + (U *m U^T + V *m V^T).
 Proof. by rewrite !tr_row_mx !mul_row_col. Qed.
 
+(* Euler layout: on the linear rows lay_add / lay_sub are the plain column-wise operations *)
+Lemma lay_add_sub_linear r c nl (X : 'M[F]_(r, c)) (v : 'cV[F]_r) : (r <= nl)%N ->
+  lay_sub (O:=O) nl (lay_add (O:=O) nl X v) v = X.
+Proof.
+move=> le; apply/matrixP=> i j; rewrite !mxE /= !mx_get_ord mxE /= !mx_get_ord mx_get_col0.
+have -> : Nat.ltb i nl = true by apply/Nat.ltb_lt/ssrnat.ltP; exact: leq_trans (ltn_ord i) le.
+by rewrite addrK.
+Qed.
+
 Section Sigma.
-Variables (n : nat) (w : utw O) (x : 'cV[F]_n) (P : 'M[F]_n).
+Variables (n nl : nat) (w : utw O) (x : 'cV[F]_n) (P : 'M[F]_n).
+(* the sigma-point perturbations are recovered from the sigma points by the layout's
+   difference: an identity on linear rows; on an angle row it says that
+   directional_sub (directional_add p m) m = p, i.e. the perturbation lies in (-pi, pi] *)
+Definition state_roundtrip : Prop :=
+  lay_sub (O:=O) nl (lay_add (O:=O) nl (perturbations n (utc w) P) x) x = perturbations n (utc w) P.
+Hypothesis rt : state_roundtrip.
 Hypothesis c_gt0 : 0 < utc w.
 Hypothesis wciE : wci w = ((1 + 1) * utc w)^-1.
 Hypothesis sqP : @sq n P *m (@sq n P)^T = P.
@@ -515,13 +598,13 @@ Lemma wci_ge0_of_c : 0 <= wci w.
 Proof. by rewrite wciE invr_ge0; apply: mulr_ge0; [apply: addr_ge0; exact: ler01 | exact: ltW]. Qed.
 
 (* the weighted state offsets: X = (SP - x) sqrt(diag wc) *)
-Definition Xw := mcolwise_sub (O:=O) (sigma_points n (utc w) x P) x *m sqrt_wcov_diag (nsig n) w.
+Definition Xw := lay_sub (O:=O) nl (sigma_points n nl (utc w) x P) x *m sqrt_wcov_diag (nsig n) w.
 
 Lemma XwE :
   Xw = row_mx (0 : 'M[F]_(n, 1)) (row_mx ((t_sqrt tr (utc w) * t_sqrt tr (wci w)) *: @sq n P)
                         ((- (t_sqrt tr (utc w) * t_sqrt tr (wci w))) *: @sq n P)).
 Proof.
-rewrite /Xw /sigma_points mcolwise_add_sub /sqrt_wcov_diag /perturbations.
+rewrite /Xw /sigma_points rt /sqrt_wcov_diag /perturbations.
 rewrite [LHS](@mul_row3_diag _ _ _ _ _ (t_sqrt tr (wci w))) //.
 by rewrite /= scaler0 !scalerA mulrN ![t_sqrt tr (wci w) * _]mulrC.
 Qed.
@@ -538,6 +621,10 @@ have pos : 0 < (1 + 1) * utc w by apply: mulr_gt0 => //; apply: addr_gt0; exact:
 by rewrite wciE mulfV // gt_eqF.
 Qed.
 End Sigma.
+
+Lemma state_roundtrip_linear n nl (w : utw O) (x : 'cV[F]_n) (P : 'M[F]_n) : (n <= nl)%N ->
+  state_roundtrip nl w x P.
+Proof. by move=> le; rewrite /state_roundtrip lay_add_sub_linear. Qed.
 
 
 (* ---- likelihood: the UVR density as getLikelihood() calls it = the direct density ---- *)
@@ -592,13 +679,14 @@ rewrite /lik_Rcat /= mx_get_build // D Mo div_ks // nth_map_seq // (noise_blockE
 by rewrite mx_get_ord.
 Qed.
 
-Lemma uvr_is_direct (nu : 'cV[F]_m) (Y : 'M[F]_(m, L)) :
-  uvr_log_density (O:=O) nu (mzero m 1) Y (@mtr O m L Y) (lik_Rcat nz) =
-  log_density (O:=O) nu (mzero m 1) (Y *m Y^T + R).
+Lemma uvr_terms_eq (nu : 'cV[F]_m) (Y : 'M[F]_(m, L)) :
+  uvr_terms (O:=O) nu (mzero m 1) Y (@mtr O m L Y) (lik_Rcat nz) =
+  (\det R * \det (1%:M + Y^T *m invmx R *m Y),
+   ((nu^T *m invmx R) *m (1%:M - Y *m invmx (1%:M + Y^T *m invmx R *m Y) *m (Y^T *m invmx R)) *m nu) 0 0).
 Proof.
 have spdR : spd R by exact: bdiag_spd.
 have uRb j : (j < k)%N -> Rb j \in unitmx by move=> jk; apply: spd_unit; exact: spdRb.
-rewrite /uvr_log_density /log_density div_ks //.
+rewrite /uvr_terms div_ks //.
 have -> : mcolwise_sub (O:=O) nu (mzero m 1) = nu.
   by rewrite mcolwise_subE; apply/matrixP=> i j; rewrite !mxE subr0 ord1.
 set iRl := (if Nat.eqb m s then List.map _ _ else _).
@@ -629,15 +717,31 @@ have detRE : detR = \det R.
     by rewrite lik_Rcat_block.
   rewrite fold_prod mul1r; apply: eq_bigr => j _.
   by rewrite lik_Rcat_block.
-rewrite /gauss_log_value VRE dRE detRE /=; congr (_ * (_ + _ + _)).
+by rewrite VRE dRE detRE /= mx_get00.
+Qed.
+
+(* the argument of std::log in the UVR density is positive *)
+Lemma uvr_det_gt0 (nu : 'cV[F]_m) (Y : 'M[F]_(m, L)) :
+  0 < (uvr_terms (O:=O) nu (mzero m 1) Y (@mtr O m L Y) (lik_Rcat nz)).1.
+Proof.
+have spdR : spd R by exact: bdiag_spd.
+by rewrite uvr_terms_eq; exact: (serial_detC_gt0 Y spdR).
+Qed.
+
+Lemma uvr_is_direct (nu : 'cV[F]_m) (Y : 'M[F]_(m, L)) :
+  uvr_log_density (O:=O) nu (mzero m 1) Y (@mtr O m L Y) (lik_Rcat nz) =
+  log_density (O:=O) nu (mzero m 1) (Y *m Y^T + R).
+Proof.
+have spdR : spd R by exact: bdiag_spd.
+rewrite /uvr_log_density uvr_terms_eq /log_density /gauss_log_value /=; congr (_ * (_ + _ + _)).
   by rewrite [Y *m Y^T + R]addrC (det_lemma _ _ (spd_unit spdR)).
-rewrite /quadform /= !mx_get00 subr0.
-by rewrite -[Y *m invmx _ *m _]mulmxA [Y *m (invmx _ *m _)]mulmxA (serial_quadform Y nu spdR).
+rewrite /quadform /= mx_get00 subr0.
+by rewrite (serial_quadform Y nu spdR).
 Qed.
 End Likelihood.
 (* ---- one component: serial correction = additive UKF correction ---- *)
 Section Comp.
-Variables (n k s : nat).
+Variables (n nl ml k s : nat).
 Notation m := (k * s)%N.
 Variables (w : utw O) (h : M O n 1 -> M O m 1) (y : M O m 1) (nz : noise O s m).
 Variables (Rb : nat -> 'M[F]_s) (x : 'cV[F]_n) (P : 'M[F]_n).
@@ -646,18 +750,19 @@ Hypothesis c_gt0 : 0 < utc w.
 Hypothesis wciE : wci w = ((1 + 1) * utc w)^-1.
 Hypothesis wc0_ge0 : 0 <= wc0 w.
 Hypothesis sqP : @sq n P *m (@sq n P)^T = P.
+Hypothesis rt : state_roundtrip nl w x P.
 Hypothesis Hnz : noise_blocks nz Rb.
 Hypothesis spdRb : forall j, (j < k)%N -> spd (Rb j).
 
 Let R : 'M[F]_m := bdiag k Rb.
-Let so := sukf_correct_comp w h y nz x P.
-Let uo := ukf_correct_comp w h y (R : M O m m) x P.
+Let so := sukf_correct_comp_lay nl ml w h y nz x P.
+Let uo := ukf_correct_comp_lay nl ml w h y (R : M O m m) x P.
 Let L := nsig n.
-Let Yraw : 'M[F]_(m, L) := propagate h (sigma_points n (utc w) x P).
-Let ybar : 'cV[F]_m := Yraw *m wmean_col L w.
-Let Yc : 'M[F]_(m, L) := mcolwise_sub (O:=O) Yraw ybar.
+Let Yraw : 'M[F]_(m, L) := propagate h (sigma_points n nl (utc w) x P).
+Let ybar : 'cV[F]_m := lay_mean (O:=O) ml Yraw (wmean_col L w).
+Let Yc : 'M[F]_(m, L) := lay_sub (O:=O) ml Yraw ybar.
 Let Yw : 'M[F]_(m, L) := Yc *m sqrt_wcov_diag L w.
-Let X : 'M[F]_(n, L) := Xw w x P.
+Let X : 'M[F]_(n, L) := Xw nl w x P.
 Let nu : 'cV[F]_m := y - ybar.
 
 Lemma comp_R_spd : spd R. Proof. exact: bdiag_spd. Qed.
@@ -666,13 +771,13 @@ Proof. by move=> jk; apply: spd_unit; exact: spdRb. Qed.
 
 Lemma so_covE : so_cov so = X *m invmx (1%:M + Yw^T *m invmx R *m Yw) *m X^T.
 Proof.
-by rewrite /so /sukf_correct_comp (@sukf_accum_blocks _ _ _ _ _ _ Rb) //; exact: comp_Rb_unit.
+by rewrite /so /sukf_correct_comp_lay (@sukf_accum_blocks _ _ _ _ _ _ Rb) //; exact: comp_Rb_unit.
 Qed.
 
 Lemma so_meanE :
   so_mean so = x + X *m invmx (1%:M + Yw^T *m invmx R *m Yw) *m (Yw^T *m invmx R *m nu).
 Proof.
-by rewrite /so /sukf_correct_comp (@sukf_accum_blocks _ _ _ _ _ _ Rb) //; exact: comp_Rb_unit.
+by rewrite /so /sukf_correct_comp_lay (@sukf_accum_blocks _ _ _ _ _ _ Rb) //; exact: comp_Rb_unit.
 Qed.
 
 Lemma so_innovE : so_innov so = nu. Proof. by []. Qed.
@@ -680,7 +785,7 @@ Lemma so_YE : so_Y so = Yw. Proof. by []. Qed.
 
 Lemma uo_PyyE : uo_Pyy uo = Yw *m Yw^T + R.
 Proof.
-rewrite /uo /ukf_correct_comp /= -/L -/Yraw -/ybar -/Yc.
+rewrite /uo /ukf_correct_comp_lay /= -/L -/Yraw -/ybar -/Yc.
 by rewrite -(weighted_cross wc0_ge0 (wci_ge0_of_c c_gt0 wciE)).
 Qed.
 
@@ -690,20 +795,20 @@ Let K : 'M[F]_(n, m) := X *m Yw^T *m invmx (Yw *m Yw^T + R).
 
 Lemma uo_meanE : uo_mean uo = x + K *m nu.
 Proof.
-have := uo_PyyE; rewrite /uo /ukf_correct_comp /= -/L -/Yraw -/ybar -/Yc => ->.
+have := uo_PyyE; rewrite /uo /ukf_correct_comp_lay /= -/L -/Yraw -/ybar -/Yc => ->.
 by rewrite -(weighted_cross wc0_ge0 (wci_ge0_of_c c_gt0 wciE)).
 Qed.
 
 Lemma uo_covE : uo_cov uo = P - K *m (Yw *m Yw^T + R) *m K^T.
 Proof.
-have := uo_PyyE; rewrite /uo /ukf_correct_comp /= -/L -/Yraw -/ybar -/Yc => ->.
+have := uo_PyyE; rewrite /uo /ukf_correct_comp_lay /= -/L -/Yraw -/ybar -/Yc => ->.
 by rewrite -(weighted_cross wc0_ge0 (wci_ge0_of_c c_gt0 wciE)).
 Qed.
 
 Lemma sukf_comp_cov : so_cov so = uo_cov uo.
 Proof.
 rewrite so_covE uo_covE (serial_cov X Yw comp_R_spd).
-by rewrite /X (Xw_cov _ c_gt0 wciE sqP).
+by rewrite /X (Xw_cov rt c_gt0 wciE sqP).
 Qed.
 
 Lemma sukf_comp_mean : so_mean so = uo_mean uo.
@@ -724,20 +829,28 @@ Qed.
 Lemma ukf_comp_Pyy_unit : uo_Pyy uo \in unitmx.
 Proof. by rewrite uo_PyyE; exact: (serial_S_unit Yw comp_R_spd). Qed.
 
+(* the arguments of std::log in the two likelihoods are positive (Coq-side: no reliance on
+   the totalisation of ln) *)
+Lemma sukf_comp_lndet_gt0 :
+  0 < (uvr_terms (O:=O) (so_innov so) (mzero m 1) (so_Y so) (@mtr O m L (so_Y so)) (lik_Rcat nz)).1.
+Proof. exact: (uvr_det_gt0 s_gt0 Hnz spdRb). Qed.
+Lemma ukf_comp_lndet_gt0 : 0 < \det (uo_Pyy uo : 'M[F]_m).
+Proof. by rewrite uo_PyyE; exact: (serial_detS_gt0 Yw comp_R_spd). Qed.
+
 End Comp.
 
 
 (* ---- reduced constructor = full constructor with equal blocks ---- *)
 Section Reduced.
-Variables (n k s : nat).
+Variables (n nl ml k s : nat).
 Notation m := (k * s)%N.
 Variables (w : utw O) (h : M O n 1 -> M O m 1) (y : M O m 1) (R0 : 'M[F]_s).
 Hypothesis s_gt0 : (0 < s)%N.
 Let nzr : noise O s m := @NoiseReduced O s m R0.
 Let nzf : noise O s m := @NoiseFull O s m (bdiag k (fun _ => R0)).
 
-Lemma sukf_comp_reduced x P : sukf_correct_comp w h y nzr x P = sukf_correct_comp w h y nzf x P.
-Proof. by rewrite /sukf_correct_comp sukf_accum_reduced. Qed.
+Lemma sukf_comp_reduced x P : sukf_correct_comp_lay nl ml w h y nzr x P = sukf_correct_comp_lay nl ml w h y nzf x P.
+Proof. by rewrite /sukf_correct_comp_lay sukf_accum_reduced. Qed.
 
 Lemma lik_Rcat_reduced : lik_Rcat nzr = lik_Rcat nzf.
 Proof.
@@ -752,11 +865,11 @@ Lemma sukf_lik_reduced (o : sukf_out O n m) :
 Proof. by rewrite /sukf_likelihood_comp lik_Rcat_reduced. Qed.
 
 Lemma sukf_correct_reduced pred corr_prev :
-  sukf_correct w h y nzr pred corr_prev = sukf_correct w h y nzf pred corr_prev.
+  sukf_correct nl ml w h y nzr pred corr_prev = sukf_correct nl ml w h y nzf pred corr_prev.
 Proof.
 rewrite /sukf_correct; case: Nat.eqb => //.
-have -> // : List.map (fun c => sukf_correct_comp w h y nzr c.1 c.2) (mix_comps pred) =
-             List.map (fun c => sukf_correct_comp w h y nzf c.1 c.2) (mix_comps pred).
+have -> // : List.map (fun c => sukf_correct_comp_lay nl ml w h y nzr c.1 c.2) (mix_comps pred) =
+             List.map (fun c => sukf_correct_comp_lay nl ml w h y nzf c.1 c.2) (mix_comps pred).
 by apply: List.map_ext => c; exact: sukf_comp_reduced.
 Qed.
 
@@ -771,7 +884,7 @@ End Reduced.
 
 (* ---- the whole step on a mixture, with the library's unscented weights ---- *)
 Section Step.
-Variables (n k s : nat).
+Variables (n nl ml k s : nat).
 Notation m := (k * s)%N.
 Variables (alpha beta kappa : F).
 Let w : utw O := @ut_weights O n alpha beta kappa.
@@ -787,46 +900,57 @@ Proof. by rewrite /w /= div1r. Qed.
 
 Hypothesis sq_contract : forall d (P : 'M[F]_d), psd P -> @sq d P *m (@sq d P)^T = P.
 
-Lemma step_comp_cov x P : psd (P : 'M[F]_n) ->
-  so_cov (sukf_correct_comp w h y nz x P) = uo_cov (ukf_correct_comp w h y (bdiag k Rb : M O m m) x P).
+Lemma step_comp_cov x P : psd (P : 'M[F]_n) -> state_roundtrip nl w x P ->
+  so_cov (sukf_correct_comp_lay nl ml w h y nz x P) = uo_cov (ukf_correct_comp_lay nl ml w h y (bdiag k Rb : M O m m) x P).
 Proof.
-by move=> pP; exact: (@sukf_comp_cov n k s w h y nz Rb x P s_gt0 c_gt0 ut_wciE wc0_ge0 (sq_contract pP) Hnz spdRb).
+by move=> pP rt; exact: (@sukf_comp_cov n nl ml k s w h y nz Rb x P s_gt0 c_gt0 ut_wciE wc0_ge0 (sq_contract pP) rt Hnz spdRb).
 Qed.
 
 Lemma step_comp_mean x P :
-  so_mean (sukf_correct_comp w h y nz x P) = uo_mean (ukf_correct_comp w h y (bdiag k Rb : M O m m) x P).
-Proof. exact: (@sukf_comp_mean n k s w h y nz Rb x P s_gt0 c_gt0 ut_wciE wc0_ge0 Hnz spdRb). Qed.
+  so_mean (sukf_correct_comp_lay nl ml w h y nz x P) = uo_mean (ukf_correct_comp_lay nl ml w h y (bdiag k Rb : M O m m) x P).
+Proof. exact: (@sukf_comp_mean n nl ml k s w h y nz Rb x P s_gt0 c_gt0 ut_wciE wc0_ge0 Hnz spdRb). Qed.
 
 Lemma step_comp_likelihood x P :
-  sukf_likelihood_comp nz (sukf_correct_comp w h y nz x P) =
-  ukf_likelihood_comp (ukf_correct_comp w h y (bdiag k Rb : M O m m) x P).
-Proof. exact: (@sukf_comp_likelihood n k s w h y nz Rb x P s_gt0 c_gt0 ut_wciE wc0_ge0 Hnz spdRb). Qed.
+  sukf_likelihood_comp nz (sukf_correct_comp_lay nl ml w h y nz x P) =
+  ukf_likelihood_comp (ukf_correct_comp_lay nl ml w h y (bdiag k Rb : M O m m) x P).
+Proof. exact: (@sukf_comp_likelihood n nl ml k s w h y nz Rb x P s_gt0 c_gt0 ut_wciE wc0_ge0 Hnz spdRb). Qed.
 
-Lemma step_sigma_cov x P : psd (P : 'M[F]_n) -> Xw w x P *m (Xw w x P)^T = P.
-Proof. by move=> pP; exact: (Xw_cov x c_gt0 ut_wciE (sq_contract pP)). Qed.
+Lemma step_sigma_cov x P : psd (P : 'M[F]_n) -> state_roundtrip nl w x P ->
+  Xw nl w x P *m (Xw nl w x P)^T = P.
+Proof. by move=> pP rt; exact: (Xw_cov rt c_gt0 ut_wciE (sq_contract pP)). Qed.
 
 Lemma step_Cinv_unit x P :
-  (sukf_accum (O:=O) (so_Y (sukf_correct_comp w h y nz x P))
-                     (so_innov (sukf_correct_comp w h y nz x P)) nz).1 \in unitmx.
-Proof. exact: (@sukf_comp_Cinv_unit n k s w h y nz Rb x P s_gt0 Hnz spdRb). Qed.
+  (sukf_accum (O:=O) (so_Y (sukf_correct_comp_lay nl ml w h y nz x P))
+                     (so_innov (sukf_correct_comp_lay nl ml w h y nz x P)) nz).1 \in unitmx.
+Proof. exact: (@sukf_comp_Cinv_unit n nl ml k s w h y nz Rb x P s_gt0 Hnz spdRb). Qed.
 
-Lemma step_Pyy_unit x P : uo_Pyy (ukf_correct_comp w h y (bdiag k Rb : M O m m) x P) \in unitmx.
-Proof. exact: (@ukf_comp_Pyy_unit n k s w h y Rb x P c_gt0 ut_wciE wc0_ge0 spdRb). Qed.
+Lemma step_Pyy_unit x P : uo_Pyy (ukf_correct_comp_lay nl ml w h y (bdiag k Rb : M O m m) x P) \in unitmx.
+Proof. exact: (@ukf_comp_Pyy_unit n nl ml k s w h y Rb x P c_gt0 ut_wciE wc0_ge0 spdRb). Qed.
+
+Lemma step_sukf_lndet_gt0 x P :
+  0 < (uvr_terms (O:=O) (so_innov (sukf_correct_comp_lay nl ml w h y nz x P)) (mzero m 1)
+                 (so_Y (sukf_correct_comp_lay nl ml w h y nz x P))
+                 (@mtr O m (nsig n) (so_Y (sukf_correct_comp_lay nl ml w h y nz x P))) (lik_Rcat nz)).1.
+Proof. exact: (@sukf_comp_lndet_gt0 n nl ml k s w h y nz Rb x P s_gt0 Hnz spdRb). Qed.
+
+Lemma step_ukf_lndet_gt0 x P :
+  0 < \det (uo_Pyy (ukf_correct_comp_lay nl ml w h y (bdiag k Rb : M O m m) x P) : 'M[F]_m).
+Proof. exact: (@ukf_comp_lndet_gt0 n nl ml k s w h y Rb x P c_gt0 ut_wciE wc0_ge0 spdRb). Qed.
 
 Lemma sukf_step_is_ukf (pred corr_prev : mixture O n) :
-  (forall c, List.In c (mix_comps pred) -> psd (c.2 : 'M[F]_n)) ->
-  (sukf_correct w h y nz pred corr_prev).1 =
-    (ukf_correct w h y (bdiag k Rb : M O m m) pred corr_prev).1 /\
-  sukf_likelihood nz (sukf_correct w h y nz pred corr_prev).2 =
-    Some (List.map (@ukf_likelihood_comp O n m) (ukf_correct w h y (bdiag k Rb : M O m m) pred corr_prev).2).
+  (forall c, List.In c (mix_comps pred) -> psd (c.2 : 'M[F]_n) /\ state_roundtrip nl w c.1 c.2) ->
+  (sukf_correct nl ml w h y nz pred corr_prev).1 =
+    (ukf_correct nl ml w h y (bdiag k Rb : M O m m) pred corr_prev).1 /\
+  sukf_likelihood nz (sukf_correct nl ml w h y nz pred corr_prev).2 =
+    Some (List.map (@ukf_likelihood_comp O n m) (ukf_correct nl ml w h y (bdiag k Rb : M O m m) pred corr_prev).2).
 Proof.
-move=> Hpsd; have Hsq c (Hc : List.In c (mix_comps pred)) := sq_contract (Hpsd c Hc).
+move=> Hpsd; have Hsq c (Hc : List.In c (mix_comps pred)) := sq_contract (proj1 (Hpsd c Hc)).
 rewrite /sukf_correct mod_ks // /ukf_correct /sukf_likelihood; split.
-  congr mkMix; rewrite !List.map_map; apply: List.map_ext_in => c Hc.
-  by rewrite (@sukf_comp_cov n k s w h y nz Rb c.1 c.2 s_gt0 c_gt0 ut_wciE wc0_ge0 (Hsq _ Hc) Hnz spdRb)
-             (@sukf_comp_mean n k s w h y nz Rb c.1 c.2 s_gt0 c_gt0 ut_wciE wc0_ge0 Hnz spdRb).
+  congr (mkMix (overwrite_prefix _ _) _); rewrite !List.map_map; apply: List.map_ext_in => c Hc.
+  by rewrite (@sukf_comp_cov n nl ml k s w h y nz Rb c.1 c.2 s_gt0 c_gt0 ut_wciE wc0_ge0 (Hsq _ Hc) (proj2 (Hpsd c Hc)) Hnz spdRb)
+             (@sukf_comp_mean n nl ml k s w h y nz Rb c.1 c.2 s_gt0 c_gt0 ut_wciE wc0_ge0 Hnz spdRb).
 congr Some; rewrite !List.map_map; apply: List.map_ext_in => c Hc.
-by rewrite (@sukf_comp_likelihood n k s w h y nz Rb c.1 c.2 s_gt0 c_gt0 ut_wciE wc0_ge0 Hnz spdRb).
+by rewrite (@sukf_comp_likelihood n nl ml k s w h y nz Rb c.1 c.2 s_gt0 c_gt0 ut_wciE wc0_ge0 Hnz spdRb).
 Qed.
 End Step.
 
